@@ -107,6 +107,14 @@ namespace nmtools::index
                 // return return_t{meta::Nothing};
                 return return_t{};
             }
+            // repeated axis in source or in destination (numpy: "repeated axis in `source` argument")
+            for (size_t i=0; i<(size_t)len(*src); i++) {
+                for (size_t j=i+1; j<(size_t)len(*src); j++) {
+                    if ((at(*src,i)==at(*src,j)) || (at(*dst,i)==at(*dst,j))) {
+                        return return_t{};
+                    }
+                }
+            }
 
             auto in = [](auto v, const auto& array) {
                 auto found = false;
